@@ -82,6 +82,18 @@ structure GMethod where
   body : List GStmt
   deriving Inhabited
 
+/-- the static type the backend annotated an expression with -/
+def staticTy : GExpr → GTy
+  | .nil t | .voidv t | .unitv t | .var _ t | .int _ t | .float _ t | .call t _ _ | .un _ t _
+  | .bin _ t _ _ | .field _ t _ | .index t _ _ | .cast t _ | .slit t _ | .alit t _ | .blocke t _ _ => t
+  | .bool _ => .bool
+  | .str _ => .string
+
+def isPtrTy : GTy → Bool
+  | .ptr _ => true
+  | _ => false
+
+
 inductive GItem where
   | package (n : String)
   | imports (specs : List (String × String))
